@@ -830,7 +830,18 @@ func c14Judge(c *c14Case, srvObs []c14SrvObs, cliObs []c14CliObs, stray []string
 		}
 		if fail != "" {
 			if !lenient {
-				return fmt.Errorf("%s%s (no negotiated limit was exceeded)", pre, fail)
+				for j := k + 1; j < len(c.Reqs); j++ { // context: how the later exchanges ended
+					switch {
+					case cliObs[j].rtErr != nil:
+						fail += fmt.Sprintf("; exchange %d RoundTrip: %v", j, cliObs[j].rtErr)
+					case cliObs[j].bodyErr != nil:
+						fail += fmt.Sprintf("; exchange %d body: %v", j, cliObs[j].bodyErr)
+					case srvObs[j].bodyErr != nil:
+						fail += fmt.Sprintf("; exchange %d handler read: %v", j, srvObs[j].bodyErr)
+					}
+				}
+				return fmt.Errorf("%s%s (no negotiated limit was exceeded; frames seen from server: %d GOAWAY %d RST_STREAM, from client: %d GOAWAY %d RST_STREAM)", pre, fail,
+					srvWire.frames[7], srvWire.frames[3], cliWire.frames[7], cliWire.frames[3])
 			}
 			failedClean++
 			continue
@@ -1059,6 +1070,18 @@ func c14Judge(c *c14Case, srvObs []c14SrvObs, cliObs []c14CliObs, stray []string
 
 // c14Known classifies cases that match a recorded finding (see KNOWN_FINDINGS.json).
 func c14Known(c c14Case) string {
+	// Trailer lists larger than the receiver's header list limit are cut off silently:
+	// neither Transport.processTrailers nor Server.processTrailerHeaders looks at
+	// MetaHeadersFrame.Truncated.
+	for _, q := range c.Reqs {
+		if c14ListSize(q.RTrailers)+c14ListSize(q.RPTrailers) > c.Cli.headerLimit() {
+			return "c14-resp-trailers-over-limit-truncated"
+		}
+		// (a client that knows the server's limit refuses to send such trailers)
+		if c.Start == 2 && c14ListSize(q.Trailers) > c.Srv.headerLimit() {
+			return "c14-req-trailers-over-limit-truncated"
+		}
+	}
 	if c.Start != 2 {
 		return ""
 	}
